@@ -386,7 +386,8 @@ theorem akeHasFinished_run (K : Crypto) (s : MState) (a : Ake) (ha : s.conv.ake 
     ∃ r env' mm', EnvStep s.env env' ∧
       runM (akeHasFinished K) s = .ok (.ok (a.keys.generateNewDHKeyPair K r).2,
         { conv := { s.conv with
-                      keys := (a.keys.generateNewDHKeyPair K r).1
+                      keys := ({ a.keys with oldMACKeys := a.keys.oldMACKeys ++
+                        (s.conv.keys.oldMACKeys ++ s.conv.keys.macHistory.map (fun u : MacUse => u.key)) }.generateNewDHKeyPair K r).1
                       ssid := if s.conv.msgState = .encrypted then a.ssid else s.conv.ssid
                       sentRevealSig := if s.conv.msgState = .encrypted then a.sentRevealSig else s.conv.sentRevealSig
                       ake := some a.wiped
@@ -402,7 +403,7 @@ theorem akeHasFinished_run (K : Crypto) (s : MState) (a : Ake) (ha : s.conv.ake 
   subst hs1
   refine ⟨r, env', mm', hs, ?_⟩
   rw [hr]
-  cases hm : s.conv.msgState <;> simp
+  cases hm : s.conv.msgState <;> cases r <;> simp [Keys.generateNewDHKeyPair]
 
 
 /-- A1: `akeHasFinished` panics exactly when there is no AKE context (nil `c.ake`) -/
@@ -440,6 +441,37 @@ theorem akeHasFinished_spec (K : Crypto) (s : MState) (r : Except Err (Option Er
     refine ⟨⟨_, hr1.symm⟩, rfl, rfl, fun hne => ?_, fun he => ?_⟩
     · simp only [hne, ↓reduceIte]
     · simp only [he, ↓reduceIte]
+
+/-- `generateNewDHKeyPair` does not touch the reveal queue -/
+theorem generateNewDHKeyPair_oldMACKeys (K : Crypto) (k : Keys) (r : Option Bytes) :
+    (k.generateNewDHKeyPair K r).1.oldMACKeys = k.oldMACKeys := by
+  cases r <;> rfl
+
+/-- repaired code, exact form: the reveal queue after `akeHasFinished` is the queue of the AKE context
+    followed by the queue of the session that ends and by the MAC keys that session used to accept
+    messages, in the order of its MAC history -/
+theorem akeHasFinished_oldMACKeys (K : Crypto) (s : MState) (a : Ake) (ha : s.conv.ake = some a)
+    (r : Except Err (Option Err)) (s' : MState) (hr : runM (akeHasFinished K) s = .ok (r, s')) :
+    s'.conv.keys.oldMACKeys =
+      a.keys.oldMACKeys ++ (s.conv.keys.oldMACKeys ++ s.conv.keys.macHistory.map (fun u : MacUse => u.key)) := by
+  obtain ⟨r0, env', mm', -, h⟩ := akeHasFinished_run K s a ha
+  rw [h] at hr
+  simp only [Res.ok.injEq, Prod.mk.injEq] at hr
+  rw [← hr.2]
+  exact generateNewDHKeyPair_oldMACKeys K _ r0
+
+/-- repaired code (C09): a key exchange that completes while a session exists loses no MAC key that
+    is still to be disclosed — every key waiting in the reveal queue of the session that ends, and the
+    key of every entry of its MAC history (the keys used to accept messages), is in the reveal queue
+    of the new session, so the next data message discloses it -/
+theorem akeHasFinished_carries_mac_keys (K : Crypto) (s : MState) (a : Ake) (ha : s.conv.ake = some a)
+    (r : Except Err (Option Err)) (s' : MState) (hr : runM (akeHasFinished K) s = .ok (r, s')) :
+    (∀ k ∈ s.conv.keys.oldMACKeys, k ∈ s'.conv.keys.oldMACKeys) ∧
+    (∀ u ∈ s.conv.keys.macHistory, u.key ∈ s'.conv.keys.oldMACKeys) := by
+  rw [akeHasFinished_oldMACKeys K s a ha r s' hr]
+  refine ⟨fun k hk => ?_, fun u hu => ?_⟩
+  · exact List.mem_append_right _ (List.mem_append_left _ hk)
+  · exact List.mem_append_right _ (List.mem_append_right _ (List.mem_map_of_mem hu))
 
 /-! ### frame of the sending path of a data message -/
 
@@ -654,6 +686,33 @@ theorem send_plain_roundtrip (K : Crypto) (m : Bytes) (s : MState)
   rw [if_pos ht]
   exact c16_plain_exact _ _ hi
 
+
+/-! ### repaired code: API arguments that do not fit the 16-bit length field of a TLV -/
+
+/-- `StartAuthenticate` with a question longer than `maxSMPQuestionLength` (= 64354 bytes) fails at once:
+    nothing is sent, no state (not even the SMP state) changes -/
+theorem startAuthenticate_question_too_long (K : Crypto) (question secret : Bytes) (s : MState)
+    (h : question.length > maxSMPQuestionLength) :
+    runM (startAuthenticate K question secret) s = .ok (.error (.other "question too long for a TLV"), s) := by
+  unfold startAuthenticate
+  simp only [h, ↓reduceIte, runM_bind, runM_throw, bindM_error]
+
+/-- `UseExtraSymmetricKey` with more than 65531 bytes of usage data (4 + length would not fit the TLV length
+    field) returns an error: no key, no message, no state change -/
+theorem useExtraSymmetricKey_too_long (K : Crypto) (usage : Nat) (usageData : Bytes) (s : MState)
+    (h : usageData.length > 0xffff - 4) :
+    ∃ msg, runM (useExtraSymmetricKey K usage usageData) s = .ok (.ok ([], [], some (.other msg)), s) := by
+  unfold useExtraSymmetricKey
+  simp only [runM_bind, runM_getc, bindM_ok]
+  split
+  · exact ⟨_, rfl⟩
+  · exact ⟨_, rfl⟩
+
+/-- whenever `UseExtraSymmetricKey` gets as far as building its TLV, the length field is exact (no reduction
+    modulo 2^16 takes place any more) -/
+theorem useExtraSymmetricKey_len_exact (usageData : Bytes) (h : ¬ usageData.length > 0xffff - 4) :
+    (4 + usageData.length % 65536) % 65536 = 4 + usageData.length := by
+  omega
 
 /-! ## B. instance tags (C15) -/
 
@@ -878,6 +937,34 @@ theorem verifyInstanceTags_ok (their our : Nat) (s : MState)
   rw [verifyInstanceTags_run]
   simp [hwf, hf]
 
+
+/-- B13 (repaired code, exact): a fragment that `receiveFragment` rejects does not bind the conversation to the
+    peer instance its prefix names.  Whatever `receiveFragment` did before it gave up (state `s1`: it may have
+    adopted the sender tag of the prefix), `receiveUnit` puts `theirTag` back to its value before the call,
+    returns the error and nothing else, and hands out the pending injections. -/
+theorem receiveUnit_invalid_fragment (K : Crypto) (fuel : Nat) (msg : Bytes) (fg : Bool) (s s1 : MState) (e : Err)
+    (hp : isOTREnabled s.conv.policies = true) (hg : guessMessageType msg = .fragment)
+    (hf : runM (receiveFragment s.conv.fragCtx msg) s = .ok (.error e, s1))
+    (hnf : s1.conv.fragCtx.finished = false) :
+    runM (receiveUnit K (fuel + 1) msg fg) s =
+      .ok (.ok ⟨none, s1.conv.injections, some e⟩,
+        { s1 with conv := { s1.conv with theirTag := s.conv.theirTag, injections := [] } }) := by
+  rw [receiveUnit]
+  simp only [runM_bind, runM_getc, bindM_ok, hp, Bool.not_true, Bool.false_eq_true, ↓reduceIte, hg,
+    runM_tryCatch, hf, bindM_error, catchM_error, runM_pure, runM_modc, hnf, Bool.false_and,
+    toSendEncoded, Option.isSome_some, withInjects, List.nil_append]
+
+/-- in particular: after a rejected fragment the peer tag is what it was -/
+theorem receiveUnit_invalid_fragment_theirTag (K : Crypto) (fuel : Nat) (msg : Bytes) (fg : Bool) (s s1 : MState)
+    (e : Err) (r : Except Err RecvResult) (s' : MState)
+    (hp : isOTREnabled s.conv.policies = true) (hg : guessMessageType msg = .fragment)
+    (hf : runM (receiveFragment s.conv.fragCtx msg) s = .ok (.error e, s1))
+    (hnf : s1.conv.fragCtx.finished = false)
+    (hr : runM (receiveUnit K (fuel + 1) msg fg) s = .ok (r, s')) :
+    s'.conv.theirTag = s.conv.theirTag := by
+  rw [receiveUnit_invalid_fragment K fuel msg fg s s1 e hp hg hf hnf] at hr
+  simp only [Res.ok.injEq, Prod.mk.injEq] at hr
+  rw [← hr.2]
 
 /-! ## C. version choice (C16) -/
 
